@@ -166,6 +166,25 @@ CHECKS['C04'] = dict(
          'identity, one spelling per datagram - the statement\'s own restrictions); initial replay (_async_update_matching_records) '
          'and the purge report (_async_cache_cleanup) are C06/C05 scope and not re-proved here; the threaded ServiceBrowser '
          'hand-off is outside the family')
+CHECKS['C17'] = dict(
+    text='Quietness after close is reduced to per-function obligations that are all discharged: (1) Zeroconf.async_send, real body: '
+         'once `done` is set its frame is EMPTY (nothing built, nothing handed to a transport), and no datagram over 8966 bytes is '
+         'ever handed to one; static scans show sendto is only reached through async_send and that `done` is only ever set to True. '
+         'So whatever timer or task outlives close (reply queues, deferred truncated queries, browser passes, announcements) '
+         'cannot transmit. (2) _close is idempotent and sets done; _async_close sets done BEFORE shutting the engine down. '
+         '(3) AsyncEngine._async_close, with an await model that havocs the whole heap at `await asyncio.sleep(0)`: the purge '
+         'timer that is current AFTER the flush is cancelled (the purge re-arms itself). (4) async_unregister_all_services: three '
+         'multicasts of the one goodbye builder 125 ms apart, returning at the instant of the last send. (5) AsyncZeroconf.'
+         'async_close: browsers cancelled, then goodbyes, then _async_close (call-site obligations with ghost flags). (6) every '
+         'call_later/call_at/call_soon*/ensure_future/create_task site of the package (mechanical scan, 27 sites) targets a '
+         'function with a quiet contract; _set_future_none_if_not_done never raises; wait_for_future_set_or_timeout always cancels '
+         'its handle and withdraws its future across the await (try/finally). (7) the browser passes end silently when done '
+         '(C10 contracts re-verified).',
+    design_ref='DESIGN.md section 4 C17 and 3.4',
+    note='await model A5 (heap havoc, ideal clock, logs grow, cancelled handles stay cancelled, environment-stability rely clauses '
+         'STABLE listed in contracts/c17.py); close() from a foreign thread is outside the family; browser cancellation by '
+         'remove_all_service_listeners and the effect of closing transports are assumed (ghost flags); packets() and '
+         'async_send_with_transport abstracted')
 NOT_APPLICABLE = {
     'C07': 'end-to-end liveness over several hosts and lossy delivery: no per-function contract can express it '
            '(DESIGN.md section 6)',
